@@ -1,5 +1,6 @@
 import PdeVerif.Json
 import PdeVerif.Model.PDEs
+import PdeVerif.Model.PDEsTime
 import PdeVerif.Drv.C11
 /-
 Driver of the PDE-class model (C10).  Evaluates the definitions of `Model/PDEs.lean` - the ones
@@ -22,7 +23,7 @@ partial def opOfJson (num : Json → Except String K) (n : Nat) (j : Json) : Exc
   match fldOpt j "values" with
   | some v =>
     let l ← getL num v
-    pure (fun _ => vecFn l.toArray)
+    pure (constOp (vecFn l.toArray))
   | none =>
     match fldOpt j "comps" with
     | some cs =>
@@ -140,9 +141,136 @@ def rhsOf (T : FunTab K) (num : Json → Except String K) (out : K → Json) (j 
     res := res.push (Json.arr #[Json.str name, Json.arr ((tabulate n v).map out).toArray, Json.arr sel])
   pure (Json.arr res)
 
+/-! ### explicit time: the definitions of `Model/PDEsTime.lean`
+
+The requests carry the times of a case and one measured request per time; the handlers build
+TIME-DEPENDENT operators / tables from them (`sampled`) and evaluate the time-parameterised
+definitions (`*RateAt`, `rhsValueAt`, `rhsValuePdeAt`) at every time of the list. -/
+
+def timedRequests (num : Json → Except String K) (j : Json) : Except String (List K × List Json × Json) := do
+  let times ← getL num (← fld j "times")
+  let reqs ← getL pure (← fld j "requests")
+  if times.length ≠ reqs.length then throw "times and requests differ in length"
+  match reqs.head? with
+  | some r => pure (times, reqs, r)
+  | none => throw "no requests"
+
+/-- class rates at the times of a case:
+{"times": [t..], "requests": [request of `c10.rate` with the operators measured at that time ..]}
+ -> [answer per time] -/
+def rateTOf [BEq K] (num : Json → Except String K) (out : K → Json) (j : Json) : Except String Json := do
+  let (times, reqs, j0) ← timedRequests num j
+  let cls ← fldS j0 "cls"
+  let n ← fldN j0 "n"
+  let p ← fld j0 "params"
+  let st ← fld j0 "state"
+  let par (k : String) : Except String K := do num (← fld p k)
+  let op (k : String) : Except String (TOp Nat K) := do
+    let insts ← reqs.mapM (fun r => do opOfJson num n (← fld (← fld r "ops") k))
+    pure (sampled (times.zip insts) (fun x => x))
+  let vec (f : Nat → K) : Json := Json.arr ((tabulate n f).map out).toArray
+  let mut res : Array Json := #[]
+  for t in times do
+    let r ← match cls with
+      | "DiffusionPDE" =>
+        pure (Json.mkObj [("c", vec (diffusionRateAt (← par "diffusivity") (← op "lap_bc") t (← getVec num st "c")))])
+      | "AllenCahnPDE" =>
+        pure (Json.mkObj [("c", vec (allenCahnRateAt (← par "interface_width") (← par "mobility")
+          (← op "lap_bc") t (← getVec num st "c")))])
+      | "CahnHilliardPDE" =>
+        pure (Json.mkObj [("c", vec (cahnHilliardRateAt (← par "interface_width") (← op "lap_c") (← op "lap_mu")
+          t (← getVec num st "c")))])
+      | "KPZInterfacePDE" =>
+        pure (Json.mkObj [("c", vec (kpzRateAt (← par "nu") (← par "lmbda") (← op "lap_bc") (← op "gradsq")
+          t (← getVec num st "c")))])
+      | "KuramotoSivashinskyPDE" =>
+        pure (Json.mkObj [("c", vec (ksRateAt (← par "nu") (← op "lap_bc") (← op "lap_bc_lap") (← op "gradsq")
+          t (← getVec num st "c")))])
+      | "SwiftHohenbergPDE" =>
+        pure (Json.mkObj [("c", vec (swiftHohenbergRateAt (← par "rate") (← par "kc2") (← par "delta")
+          (← op "lap_bc") (← op "lap_bc_lap") t (← getVec num st "c")))])
+      | "WavePDE" =>
+        let r := waveRateAt (← par "speed") (← op "lap_bc") t (← getVec num st "u") (← getVec num st "v")
+        pure (Json.mkObj [("u", vec r.1), ("v", vec r.2)])
+      | "KleinGordonPDE" =>
+        let r := kleinGordonRateAt (← par "speed") (← par "mass") (← op "lap_bc") t (← getVec num st "u")
+          (← getVec num st "v")
+        pure (Json.mkObj [("u", vec r.1), ("v", vec r.2)])
+      | _ => throw s!"unknown class {cls}"
+    res := res.push r
+  pure (Json.arr res)
+
+/-- field semantics of the advertised text at the times of a case - `PdeVerif.PDEs.rhsValueAt`:
+{"times": [t..], "requests": [request of `c10.text` with the operators of that time ..]} -/
+def textTOf [BEq K] (T : FunTab K) (num : Json → Except String K) (out : K → Json) (j : Json) :
+    Except String Json := do
+  let (times, reqs, j0) ← timedRequests num j
+  let n ← fldN j0 "n"
+  let exprs ← getL (pairOfJson exprOfJson) (← fld j0 "exprs")
+  let fields ← getL (pairOfJson (getL num)) (← fld j0 "fields")
+  let laps ← reqs.mapM (fun r => do opOfJson num n (← fld r "lap"))
+  let gradsqs ← reqs.mapM (fun r => match fldOpt r "gradsq" with
+    | some g => opOfJson num n g
+    | none => pure (fun _ _ => zero))
+  let lap : TOp Nat K := sampled (times.zip laps) (fun x => x)
+  let gradsq : TOp Nat K := sampled (times.zip gradsqs) (fun x => x)
+  let vars : List (String × St Nat K) := fields.map (fun (nm, l) => (nm, vecFn l.toArray))
+  let res := times.map (fun t => Json.arr (exprs.map (fun (var, e) =>
+    let v := rhsValueAt T lap gradsq vars t e
+    Json.arr #[Json.str var, Json.arr ((tabulate n v).map out).toArray])).toArray)
+  pure (Json.arr res.toArray)
+
+/-- right-hand sides of the generic `PDE` at the times of a case - `PdeVerif.PDEs.rhsValuePdeAt`
+(the model binds the symbol `t`; the request's constants do not contain it):
+{"times": [t..], "consts": [[name, v]..], "requests": [request of `c10.rhs` (its "scalars" are
+ not read) with the table measured at that time ..]} -> [answer of `c10.rhs` per time] -/
+def rhsTOf [BEq K] (T : FunTab K) (num : Json → Except String K) (out : K → Json) (j : Json) :
+    Except String Json := do
+  let (times, reqs, j0) ← timedRequests num j
+  let n ← fldN j0 "n"
+  let exprsJ ← getL pure (← fld j0 "exprs")
+  let fields ← getL (pairOfJson (getL num)) (← fld j0 "fields")
+  let consts ← getL (pairOfJson num) (← fld j "consts")
+  let keys ← getL (pairOfJson getS) (← fld j0 "bc_keys")
+  let tables ← reqs.mapM (fun r => do getL (tripleOfJson (getL (optOpOfJson num n))) (← fld r "table"))
+  let table : K → OpTable Nat K := sampled (times.zip tables) []
+  let vars : List (String × St Nat K) := fields.map (fun (nm, l) => (nm, vecFn l.toArray))
+  let mut all : Array Json := #[]
+  for t in times do
+    let mut res : Array Json := #[]
+    for ej in exprsJ do
+      let (name, e, var) ← match ej with
+        | .arr #[a, b, c] => pure (← getS a, ← exprOfJson b, ← getS c)
+        | _ => throw s!"expected [name, AST, var], got {ej.compress}"
+      let mut sel : Array Json := #[]
+      for f in (funNames1 e).eraseDups do
+        match (table t).lookup f with
+        | some (bcName, _) =>
+          let k := bcIndex keys var bcName
+          sel := sel.push (Json.arr #[Json.str f, toJson k])
+          if (pdeOp keys (table t) var f).isNone then
+            throw s!"equation of {var}: operator {f} with condition #{k} is not available"
+        | none => pure ()
+      let v := rhsValuePdeAt T keys table var vars consts t e
+      res := res.push (Json.arr #[Json.str name, Json.arr ((tabulate n v).map out).toArray, Json.arr sel])
+    all := all.push (Json.arr res)
+  pure (Json.arr all)
+
 end
 
 instance : Inhabited Rat := ⟨0⟩
+
+def rateT (j : Json) : Except String Json := do
+  let mode ← fldS j "mode"
+  if mode == "Q" then rateTOf getQ jQ j else rateTOf getF jF j
+
+def rhsT (j : Json) : Except String Json := do
+  let mode ← fldS j "mode"
+  if mode == "Q" then rhsTOf (algTab : FunTab Rat) getQ jQ j else rhsTOf floatTab getF jF j
+
+def textT (j : Json) : Except String Json := do
+  let mode ← fldS j "mode"
+  if mode == "Q" then textTOf (algTab : FunTab Rat) getQ jQ j else textTOf floatTab getF jF j
 
 def rate (j : Json) : Except String Json := do
   let mode ← fldS j "mode"
@@ -188,5 +316,6 @@ def template (j : Json) : Except String Json := do
   | _ => throw s!"unknown class {cls}"
 
 def handlers : List (String × Handler) :=
-  [("c10.rate", rate), ("c10.rhs", rhs), ("c10.text", text), ("c10.template", template)]
+  [("c10.rate", rate), ("c10.rhs", rhs), ("c10.text", text), ("c10.template", template),
+   ("c10.rate_t", rateT), ("c10.rhs_t", rhsT), ("c10.text_t", textT)]
 end PdeVerif.Drv.C10
